@@ -11,6 +11,11 @@ package main
 // Time: doubling experiment per document family; only clearly super-linear growth
 // (ratio > 3 per doubling over three consecutive doublings) is flagged.
 //
+// History: before /repo commit 8884bbf the CBE reader allocated twice the ANNOUNCED length before reading
+// (finding keys C08/alloc/rules-off/oversized-chunk, C08/alloc/rules-off/oversized-mediatype,
+// C08/alloc/rules-on/oversized-mediatype). The witnesses are pinned (c08PinnedWitnesses) and run in every
+// tier; should they violate again, the run switches to a budgeted mode (see runC08).
+//
 // Correspondence: CE.Model.Cost (cost_case / cost_case_ok): error-or-not, len(Reader.buffer),
 // Reader.bytesRead, events delivered (exact) and TotalAlloc (bracketed by the model's
 // reader-buffer bytes below and reader+validator bytes plus slack above); for killed
@@ -626,6 +631,27 @@ func c08Sizes(maxArray uint64) []uint64 {
 
 func (d c08Doc) key() string { return "C08/alloc/" + d.class }
 
+// c08PinnedWitnesses: the documents on which the unrepaired reader (before /repo 8884bbf) violated the bound:
+// 8 bytes announcing a 2^30-byte chunk without a validator (2 GiB requested), 9 bytes announcing a 2^24-byte
+// chunk inside a list, 9 bytes announcing a 2^29-byte media type WITH a validator and a 1 MiB limit (1 GiB),
+// 9 bytes announcing a 2^32-1-byte media type under the default configuration (8 GiB), and a media type
+// after an array without a validator. Kept so that a regression is reported under the old finding keys.
+type c08Witness struct {
+	d        c08Doc
+	rules    bool
+	maxArray uint64
+}
+
+func c08PinnedWitnesses() []c08Witness {
+	return []c08Witness{
+		{c08Doc{doc: cat([]byte{0x81, 0, 0x93}, c08ChunkHeader(1<<30, false)), class: "chunk/uint8", pos: "top", pure: true, over: true}, false, 1 << 20},
+		{c08Doc{doc: cat([]byte{0x81, 0, 0x9a, 1, 0x93}, c08ChunkHeader(1<<24, false)), class: "chunk/uint8", pos: "list", pure: true, over: true}, false, 4096},
+		{c08Doc{doc: cat([]byte{0x81, 0, 0x7f, 0xf3}, c08Uleb(1<<29)), class: "mediatype", pos: "top", pure: true, over: true}, true, 1 << 20},
+		{c08Doc{doc: cat([]byte{0x81, 0, 0x7f, 0xf3}, c08Uleb(1<<32-1)), class: "mediatype", pos: "top", pure: true, over: true}, true, 1 << 30},
+		{c08Doc{doc: cat([]byte{0x81, 0, 0x9a, 0x90, 4, 'h', 'i', 0x7f, 0xf3}, c08Uleb(1<<21)), class: "mediatype", pos: "second", pure: true, over: true}, false, 1 << 20},
+	}
+}
+
 // ---------------------------------------------------------------------------
 // run
 
@@ -736,9 +762,28 @@ func runC08(c *Ctx) {
 			}
 		}
 	}
-	// Every heavy candidate costs a process start (the child retires or dies). Quick tier: a budget of
-	// heavy candidates, taken round-robin over the length fields so that every field keeps some.
-	budget := c.Pick(45, 2500)
+	// The pinned witnesses of the defect repaired by /repo commit 8884bbf (reader grew its buffer to the ANNOUNCED
+	// length) go first. If one of them violates the bound again, the defect is back: every "heavy" candidate
+	// (forecast under the old policy) then costs a process start, so only a budget of them is run, taken
+	// round-robin over the length fields so that every field keeps some. With the repaired reader nothing is heavy
+	// and every candidate runs.
+	regression := false
+	{
+		pj := []c08Job{}
+		for _, w := range c08PinnedWitnesses() {
+			pj = append(pj, c08Job{Format: "cbe", Rules: w.rules, MaxArray: w.maxArray, Prefix: w.d.doc, Reps: 1})
+		}
+		for i, r := range c08RunChild(pj, c08CapBig, 30*time.Second) {
+			if ok, _ := c08Verdict(pj[i], r, c08CapBig); !ok {
+				regression = true
+			}
+		}
+	}
+	c.Rep.Extra["pinned_witnesses_violate_again"] = regression
+	budget := 1 << 30
+	if regression {
+		budget = c.Pick(45, 2500)
+	}
 	byField := map[string][]int{}
 	order := []string{}
 	for i, cd := range cands {
@@ -769,10 +814,11 @@ func runC08(c *Ctx) {
 		}
 		addItem("oversized", cd.d, cd.rules, cd.ma)
 	}
-	// the two documents of the design notes
-	addItem("oversized", c08Doc{doc: cat([]byte{0x81, 0, 0x93}, c08ChunkHeader(1<<30, false)), class: "chunk/uint8", pos: "top", pure: true, over: true}, false, 1<<20)
-	addItem("oversized", c08Doc{doc: cat([]byte{0x81, 0, 0x7f, 0xf3}, c08Uleb(1<<29)), class: "mediatype", pos: "top", pure: true, over: true}, true, 1<<20)
-	addItem("oversized", c08Doc{doc: cat([]byte{0x81, 0, 0x7f, 0xf3}, c08Uleb(1<<32-1)), class: "mediatype", pos: "top", pure: true, over: true}, true, 1<<30)
+	// the pinned witnesses themselves (always part of the run, every tier)
+	for _, w := range c08PinnedWitnesses() {
+		c.Dist("pinned-witness/" + w.d.class)
+		addItem("oversized", w.d, w.rules, w.maxArray)
+	}
 
 	// (c) honest members: the announced length is there
 	for _, f := range fields {
@@ -807,6 +853,30 @@ func runC08(c *Ctx) {
 			doc := c08Wrap(pos, cat(f.head(n), body, tail))
 			ma := maxArrays[c.Rng.Intn(len(maxArrays))]
 			addItem("honest", c08Doc{doc: doc, class: f.name, pos: pos, pure: false}, c.Rng.Intn(2) == 0, ma)
+		}
+	}
+	// honest LARGE members: the reader's buffer doubles as the data arrives (geometric growth)
+	for _, f := range fields {
+		if f.name != "chunk/string" && f.name != "chunk/uint8" && f.name != "chunk/uint64" && f.name != "mediatype" && f.name != "ident/ref" && f.name != "chunk2/string" {
+			continue
+		}
+		for _, nb := range []uint64{20000, 100000, uint64(c.Pick(300000, 1<<20))} {
+			n := nb
+			if f.name == "chunk/uint64" {
+				n = nb / 8
+				nb = n * 8
+			}
+			if f.name == "ident/ref" && n > 100000 {
+				continue
+			}
+			body := bytes.Repeat([]byte{'a'}, int(nb))
+			if f.name == "mediatype" {
+				body = append(body, 0)
+			}
+			doc := c08Wrap("list", cat(f.head(n), body, []byte{0x9b}))
+			for _, rules := range []bool{false, true} {
+				addItem("honest-large", c08Doc{doc: doc, class: f.name, pos: "list", pure: false}, rules, 16<<20)
+			}
 		}
 	}
 	// honest growth sequences inside one document: buffer doubling across tokens
@@ -1224,12 +1294,17 @@ func c08TimeExperiments(c *Ctx) {
 			for _, x := range c08RunChild(jobs2, 6<<30, 300*time.Second) {
 				cpu2 = append(cpu2, x.CPU)
 			}
-			if c08SuperlinearRun(cpu2) >= 3 {
+			if c08SuperlinearRun(cpu2) >= 3 && !strings.HasPrefix(name, "cbe/") {
+				// CTE is measured only (the ANTLR front end is outside the model and outside this property's oracle)
+				c.Dist("time/cte-superlinear-suspect(reported only)/" + name)
+			} else if c08SuperlinearRun(cpu2) >= 3 {
 				c.Fail(Replay{Kind: "time", Key: "C08/time-superlinear/" + name, Input: map[string]string{"family": name, "lo": fmt.Sprint(fr.sizes[0]), "hi": fmt.Sprint(fr.sizes[last])},
 					Expect: "CPU time per doubling of the document grows by a factor of at most 3 (roughly linear)", Got: fmt.Sprintf("cpu ns per member %v, re-measured %v", fr.cpu, cpu2)})
 			}
 		}
-		if died {
+		if died && !strings.HasPrefix(name, "cbe/") {
+			c.Dist("time/cte-process-died(reported only)/" + name)
+		} else if died {
 			c.Fail(Replay{Kind: "time", Key: "C08/died/" + name, Input: map[string]string{"family": name, "lo": fmt.Sprint(fr.sizes[0]), "hi": fmt.Sprint(fr.sizes[last])},
 				Expect: "decode returns (value or error)", Got: fmt.Sprintf("%v", fr.note)})
 		}
